@@ -719,8 +719,10 @@ def run(tier):
         "table indices are bounded below the table size; (J3) every copy-like call into a fixed-size or locally allocated object is "
         "bounded by a constant that fits or by a dominating length test, and the serialised-address decoder reads only what its "
         "length tests established; (J4) strlen-relative and constant indices are in range; (J5) a local character array handed to a string function was filled or "
-        "terminated on every path (fgets only on its non-NULL edge). Not decided: termination; the bytes read "
-        "by libc callees (inet_pton, strto*, getaddrinfo); option parsing (C18).",
+        "terminated on every path (fgets only on its non-NULL edge); (J6) every loop that reads from a stream ends at end of input; (J7) unhexify "
+        "reads its NUL-terminated input in order, never past a byte not yet known to be non-NUL (relational, ghost prefix count); the option "
+        "parser's argv reads and pack cursor (C18's Q1/Q4). Not decided: termination of loops that do not read a stream; the bytes read "
+        "by libc callees (inet_pton, strto*, getaddrinfo); the rest of option parsing (C18).",
         trusted=["libc string functions read only up to the terminator of valid strings"])
     configs = [cdb.HOST]
     if tier == "thorough":
